@@ -320,10 +320,10 @@ CONDITIONS = [
                'thorough': {'bounds': _TB, 'timeout': 20000,
                             'shards': [{'producers': 1, 'writes': 1, 'preemptions': 2, 'bucket': b, 'nforced': 0, 'failmax': -1, 'b.FIRES': 1}
                                        for b in _buckets(120, 24)] +
-                                      [{'producers': 1, 'writes': 2, 'preemptions': 1, 'bucket': b, 'nforced': 3, 'failmax': 4} for b in _buckets(140, 14)] +
+                                      [{'producers': 1, 'writes': 2, 'preemptions': 1, 'bucket': b, 'nforced': 2, 'failmax': 3} for b in _buckets(140, 14)] +
                                       [{'producers': 2, 'writes': 1, 'preemptions': 1, 'bucket': b, 'nforced': 2, 'failmax': 3} for b in _buckets(180, 18)] +
                                       [{'producers': 2, 'writes': 1, 'preemptions': 1, 'bucket': b, 'nforced': 1, 'failmax': -1, 'abort_first': True}
                                        for b in _buckets(180, 9)] +
-                                      [{'producers': 3, 'writes': 1, 'preemptions': 1, 'bucket': b, 'nforced': 1, 'failmax': 1} for b in _buckets(220, 22)],
+                                      [{'producers': 3, 'writes': 1, 'preemptions': 1, 'bucket': b, 'nforced': 1, 'failmax': -1} for b in _buckets(220, 11)],
                             'witness_shard': {'producers': 1, 'writes': 1, 'preemptions': 1, 'bucket': [0, 200]}}}},
 ]
